@@ -21,7 +21,7 @@ def run(ctx: Ctx):
         "numeric value); a statistic is tested with `is None`, never for truth (0.0 is a valid mean)."
     )
     ctx.not_decided = [
-        "the median rule (_weighted_median / scale_median): a numeric piecewise algorithm; its known defect (D5: a zero-count category next to the 50% point gives 1.5 instead of 2) is not expressible as a sound structural rule and is neither claimed nor repaired here",
+        "the median ALGORITHM (_weighted_median / scale_median) as a whole: only its two piecewise tests are decided (the 50% point is the first cumulative share >= 0.5; the tie branch is taken on EXACT equality with 0.5); its known defect (D5: a zero-count category next to the 50% point gives 1.5 instead of 2) is not expressible as a sound structural rule and is neither claimed nor repaired here",
         "numeric agreement with respondent-level statistics",
     ]
     strand(ctx)
@@ -29,6 +29,7 @@ def run(ctx: Ctx):
     slice_stderr(ctx)
     orientation(ctx)
     definedness(ctx)
+    median_piecewise(ctx)
 
 
 def strand(ctx: Ctx):
@@ -177,3 +178,31 @@ def definedness(ctx: Ctx):
             ctx.check_expr("public-wiring", f"cubepart.py::_Slice.{o}_{stat}", e, f"self._assemble_marginal(self._measures.{o}_{stat})")
             ctx.count("scale marginal wirings")
     ctx.require_min("scale marginal wirings", 8)
+
+
+# --------------------------------------------------------------------------- the two tests of the median rule
+def median_piecewise(ctx: Ctx):
+    """`strictly more than half` vs `exactly half` is the whole content of the cumulative-count median.  The two
+    tests are compared token-wise; an approximate tie test (isclose / tolerance) turns `just over half` into a tie."""
+    ci = ctx.repo.cls(MM, "_ScaleMedian")
+    m = ctx.repo.lookup(ci, "_weighted_median")
+    if m is None:
+        from ..loader import AnalysisError
+
+        raise AnalysisError("_ScaleMedian._weighted_median vanished")
+    where = f"{MM}::_ScaleMedian._weighted_median"
+    locate = [n.value for n in ast.walk(m.node) if isinstance(n, ast.Assign) and u(n.targets[0]) == "median_idx"]
+    if len(locate) == 1:
+        ctx.check_expr("median.half-point", where + " [median_idx]", locate[0], ["np.argmax(cumulative_prop >= 0.5)", "np.argmax(cumulative_counts >= cumulative_counts[-1] / 2)", "np.searchsorted(cumulative_prop, 0.5)"], "first value whose cumulative share reaches one half")
+    else:
+        ctx.undecided("median.half-point", where + " [median_idx]", "the half-point is not located by a single assignment", "np.argmax(cumulative_prop >= 0.5)")
+    ties = [n.test for n in ast.walk(m.node) if isinstance(n, (ast.If, ast.IfExp)) and "median_idx" in u(n.test)]
+    for t in ties:
+        tol = [u(c.func) for c in ast.walk(t) if isinstance(c, ast.Call) and u(c.func).split(".")[-1] in ("isclose", "allclose", "approx")]
+        if tol:
+            ctx.violated("median.tie-test", where + f" [{u(t)[:60]}]", u(t), "cumulative_prop[median_idx] == 0.5",
+                         "approximate tie test: a vector in which just over half the respondents are at or below the value reports the mean of two values")
+        else:
+            ctx.check_expr("median.tie-test", where + f" [{u(t)[:60]}]", t, ["cumulative_prop[median_idx] == 0.5", "2 * cumulative_counts[median_idx] == cumulative_counts[-1]", "cumulative_counts[median_idx] * 2 == cumulative_counts[-1]"], "the mean of two neighbouring values is reported only when EXACTLY half are at or below the lower one")
+    ctx.count("median tie tests", len(ties))
+    ctx.require_min("median tie tests", 1)
